@@ -531,6 +531,8 @@ pub struct SchedStats {
     pub nested_images: u64,
     pub outcomes: BTreeMap<String, u64>,
     pub max_schedule_len: usize,
+    /// one explored schedule written out (thread:transition per step)
+    pub sample_schedule: Vec<String>,
 }
 
 impl SchedStats {
@@ -544,6 +546,7 @@ impl SchedStats {
             "degraded": self.degraded, "image_cap_hit": self.image_cap_hit, "outcomes": self.outcomes,
             "recoveries_traced_for_second_crash": self.nested_recoveries_traced, "second_level_crash_images": self.nested_images,
             "max_schedule_len": self.max_schedule_len,
+            "sample_schedule": self.sample_schedule,
         })
     }
     pub fn add_json(&mut self, v: &Value) {
@@ -568,6 +571,9 @@ impl SchedStats {
         self.nested_recoveries_traced += g("recoveries_traced_for_second_crash");
         self.nested_images += g("second_level_crash_images");
         self.max_schedule_len = self.max_schedule_len.max(g("max_schedule_len") as usize);
+        if self.sample_schedule.len() < v["sample_schedule"].as_array().map(|a| a.len()).unwrap_or(0) {
+            self.sample_schedule = v["sample_schedule"].as_array().unwrap().iter().filter_map(|x| x.as_str().map(|s| s.to_string())).collect();
+        }
         if let Some(o) = v["outcomes"].as_object() {
             for (k, n) in o {
                 *self.outcomes.entry(k.clone()).or_insert(0) += n.as_u64().unwrap_or(0);
@@ -729,6 +735,10 @@ pub fn explore_history(spec: &HistSpec, vios: &mut Vec<Violation>, stats: &mut S
                 )));
             }
             first = false;
+            let sch: Vec<String> = dfs.schedule().iter().map(|(t, l)| format!("t{}:{}", t, l)).collect();
+            if sch.len() > stats.sample_schedule.len() && sch.len() <= 60 {
+                stats.sample_schedule = sch;
+            }
         }
         stats.executions += 1;
         stats.steps += res.steps as u64;
